@@ -7,7 +7,7 @@ import ast
 from .loader import clone as _ast_clone
 
 from .loader import AnalysisError, dotted, where
-from .terms import Evaluator, Term
+from .terms import elem_term, Evaluator, Term
 from .cfg import CFG
 
 
@@ -107,7 +107,7 @@ def run_paths(ctx, fn, env0=None, this_names=("this",), include_exc=False, limit
                 env[d] = term
         elif isinstance(target, (ast.Tuple, ast.List)):
             for i, e in enumerate(target.elts):
-                bind(env, e, Term.atom(f"sub({term.key()},{i})"), ev)
+                bind(env, e, elem_term(term.key(), i), ev)
         elif isinstance(target, ast.Subscript):
             d = dotted(target.value)
             if d:
